@@ -1,4 +1,5 @@
 import Prism.Proofs.C17
+import Prism.Proofs.C17Profile
 
 #print axioms Prism.Icc.C17_desc_by_signature
 #print axioms Prism.Icc.C17_tag_slice
@@ -7,3 +8,6 @@ import Prism.Proofs.C17
 #print axioms Prism.Icc.C17_utf16_bmp
 #print axioms Prism.Icc.C17_utf16_pair
 #print axioms Prism.Icc.C17_english_single
+#print axioms Prism.Icc.C17_read_tag_table
+#print axioms Prism.Icc.C17_read_profile
+#print axioms Prism.Icc.C17_profile_description
